@@ -1,6 +1,7 @@
 package main
 
 import (
+	"strings"
 	"context"
 	"fmt"
 	"testing"
@@ -52,6 +53,11 @@ func TestVerifC31(t *testing.T) {
 			}
 			s0 := w.store.Clone()
 			points := 0
+			// bookkeeping of the failure sweeps: config Save attempts that were not made to fail, and
+			// the number of logical config Saves (an attempt plus its retries) the command got to
+			cleanCfgSaves, cfgSaveOps := 0, 0
+			// whether a missing config is the recorded finding "the last resort, a Save of the config, failed for good"
+			knownCond := func() bool { return cleanCfgSaves == 0 && cfgSaveOps >= 2 }
 			judge := func(where string, pr *proc, lastCfgOp string) {
 				points++
 				w.postRun()
@@ -60,7 +66,8 @@ func TestVerifC31(t *testing.T) {
 					sig := "config-missing"
 					if !cfg.Atomic && lastCfgOp == "remove" && pr.cl.Dead {
 						sig = "config-missing-nonatomic-crash-between-remove-and-save"
-					} else if !cfg.Atomic && !pr.cl.Dead {
+					} else if !cfg.Atomic && !pr.cl.Dead && knownCond() {
+						// the new config could not be written and neither could the old one be put back
 						sig = "config-missing-nonatomic-save-failed-for-good"
 					}
 					r.Fail("opens", sig, "%s: the repository has no config file any more (atomic replace: %v)", where, cfg.Atomic)
@@ -112,15 +119,24 @@ func TestVerifC31(t *testing.T) {
 						pr := w.newProc("migrate")
 						cnt, fired := 0, 0
 						last := ""
+						cleanCfgSaves, cfgSaveOps = 0, 0
+						prevOp := ""
 						pr.cl.Script = func(op string, h backend.Handle, _ int) *simbe.Forced {
 							if h.Type != backend.ConfigFile || (op != "Save" && op != "Remove") {
 								return nil
 							}
+							if op == "Save" && prevOp != "Save" {
+								cfgSaveOps++
+							}
+							prevOp = op
 							cnt++
 							if cnt >= n && fired < times {
 								fired++
 								w.s.Count("fault:config-" + kind)
 								return &simbe.Forced{Kind: kind}
+							}
+							if op == "Save" {
+								cleanCfgSaves++
 							}
 							return nil
 						}
@@ -137,6 +153,70 @@ func TestVerifC31(t *testing.T) {
 						judge(fmt.Sprintf("upgrade_repo_v2 with %s on config operation %d.. (%d times)", kind, n, times), pr, last)
 					}
 				}
+			}
+			// 3. every subset of the logical config operations (an attempt with all its retries) fails for good
+			for mask := 1; mask < 16 && !r.Failed(); mask++ {
+				if hx.Tier() == "quick" && tp.Choose(2) != 0 {
+					continue
+				}
+				w.store.Restore(s0)
+				pr := w.newProc("migrate")
+				last := ""
+				cleanCfgSaves, cfgSaveOps = 0, 0
+				// logical operations: a Save with its retries (and, without atomic replace, the retry layer's
+				// clean-up Remove after each failed attempt) or a Remove with its retries
+				curKind, prevAttempt, logical, fired := "", "", 0, 0
+				firstRemoveFailed := false
+				// known: no config Save took effect, the command's last config operation was a Save
+				// (its last resort), and it got to the re-upload (two Saves, or one if the initial Remove failed)
+				appliedCfgSaves := 0
+				knownCond = func() bool {
+					return appliedCfgSaves == 0 && curKind == "Save" && (cfgSaveOps >= 2 || firstRemoveFailed && cfgSaveOps >= 1)
+				}
+				pr.cl.Script = func(op string, h backend.Handle, _ int) *simbe.Forced {
+					if h.Type != backend.ConfigFile || (op != "Save" && op != "Remove") {
+						return nil
+					}
+					if op == "Remove" && !cfg.Atomic && prevAttempt == "save-failed" {
+						prevAttempt = "cleanup"
+						return nil
+					}
+					if op != curKind || prevAttempt == "cleanup" && op == "Remove" {
+						logical++
+						curKind = op
+						if op == "Save" {
+							cfgSaveOps++
+						}
+					}
+					if logical <= 4 && mask&(1<<(logical-1)) != 0 {
+						fired++
+						w.s.Count("fault:config-op-fails-for-good")
+						prevAttempt = strings.ToLower(op) + "-failed"
+						if logical == 1 && op == "Remove" {
+							firstRemoveFailed = true
+						}
+						return &simbe.Forced{Kind: "err-before"}
+					}
+					prevAttempt = strings.ToLower(op) + "-ok"
+					if op == "Save" {
+						cleanCfgSaves++
+					}
+					return nil
+				}
+				w.store.OnMutation = append(w.store.OnMutation, func(m simbe.Mutation, _ []byte) {
+					if m.H.Type == backend.ConfigFile {
+						last = m.Op
+						if m.Op == "save" {
+							appliedCfgSaves++
+						}
+					}
+				})
+				_ = w.cmdMigrate(pr, "upgrade_repo_v2")
+				w.disarm()
+				if fired == 0 {
+					continue
+				}
+				judge(fmt.Sprintf("upgrade_repo_v2 with the config operations of mask %04b failing for good", mask), pr, last)
 			}
 			r.Count("points", points)
 			r.Nontriv = true
